@@ -47,3 +47,25 @@ package net
 //@ func (*Conn).SetStats
 //@   prop C20 C05
 //@   modifies c.Stats
+
+// ---- C05: half-close stays half-close; the wrapped socket is closed by the first Close only -----------------
+
+//@ func (*Conn).CloseWrite
+//@   prop C05
+//@   requires c != nil
+//@   nocall Conn).Close
+//@   nocall CloseRead
+//@   modifies all
+
+//@ func (*Conn).CloseRead
+//@   prop C05
+//@   requires c != nil
+//@   nocall Conn).Close
+//@   nocall CloseWrite
+//@   modifies all
+
+//@ func (*Conn).Close
+//@   prop C05 C09 C20
+//@   requires c != nil && c.isClosed != nil
+//@   modifies all
+//@   callpre Conn).Close @the-wrapped-socket-is-closed-by-the-first-close-only arg0 == c.Conn
